@@ -137,15 +137,13 @@ let () =
            note_nontrivial (show (List.hd sx))
        | Terr -> ());
       let agree = model_agrees meth path s o in
-      (* known finding: a third-party decoder panics on a text of this response, the model
-         (which keeps the panic) and the implementation both panic *)
-      let kf =
-        if decoder_panics s && o.o_out = OPanic && model_out meth path s = OPanic && wf then
-          (match meth with
-           | MQueryCalendar | MMultiGetCalendar | MGetCalendarObject -> "ical_decoder_panic"
-           | _ -> "vcard_decoder_panic")
-        else "-" in
-      if decoder_panics s then bump "decoder_panics_on_some_text";
+      (* a panic of the go-ical decoder is recovered by the caldav client (repair c4d1d95): the
+         model returns an error there.  go-vcard is called unguarded: should it ever panic, model
+         and implementation both panic, the specification rejects that, and the case is reported
+         as a failing input (no listed finding). *)
+      let kf = "-" in
+      if vcard_decoder_panics s then bump "vcard_decoder_panics_on_some_text";
+      (match s with Resp r when r.h_ical = LPanic -> bump "ical_decoder_panics_on_body" | _ -> ());
       (* outside the theorems' hypothesis (an HTTPClient that leaves Response.Request nil)
          only model agreement is required *)
       let spec = spec_ok meth path s o || not wf in
